@@ -1,4 +1,5 @@
 mod absdoc;
+mod arenax;
 mod detx;
 mod docrun;
 mod fsx;
@@ -31,6 +32,7 @@ fn main() {
         "uri-replay" => urix::cmd_replay(rest),
         "pos-replay" => posx::cmd_replay(rest),
         "squash-replay" => squashx::cmd_replay(rest),
+        "arena-replay" => arenax::cmd_replay(rest),
         "lib-dump" => detx::cmd_dump(rest),
         "lib-search" => detx::cmd_search(rest),
         "total-run" => totalx::cmd_run(rest),
